@@ -42,6 +42,17 @@ fn main() {
                 1
             }
         }
+        Some("fuzz-families") if args.len() >= 3 => {
+            let f = find(&args[2]).fuzz_families(Tier::Thorough);
+            for (n, r) in &f {
+                println!("{n} {r}");
+            }
+            if f.is_empty() {
+                1
+            } else {
+                0
+            }
+        }
         Some("list") => {
             for c in registry() {
                 println!("{}", c.id());
